@@ -40,7 +40,7 @@ PRE = [
     (r'Tr::sends_done', 'VF_CFG_sends_done'),
     (r'(?<![\w.>])nothrow_on_start\(\)', 'VF_CFG_nothrow_start'),
     (r'Op::nothrow_on_stop\(\)', 'VF_CFG_nothrow_stop'),
-    (r'\b_state::started\b', 'started'),
+    (r'\b_state::(\w+)\b', r'\1'),
     # start(): the exception leaves start_impl() (its guard unwinds) and is caught in tag_invoke
     (r'completed = self->start_impl\(\);(?=\s*\}\s*UNIFEX_CATCH)', 'completed = op_start_impl(self); if (VF_THREW()) goto vf_catch;'),
 ] + TRY_CATCH
@@ -72,6 +72,10 @@ def cb_ctx(kind):
                 raii={kind + '_ptr': (kind.upper() + '_PTR_CTOR', kind.upper() + '_PTR_DTOR')}, post=[(r'\bNULL\b', '0')])
 
 
+# the probe type passed to the lambda is kept as the event argument of the stub
+LOP_PRE = [(r'std::is_invocable_v<Lambda&, _st(?:art|op)_probe, _op\*>', 'VF_CFG_takes_self'),
+           (r'lambda_\(_(start|stop)_probe\{\}, this\);', lambda m: 'EV_lambda(this, LE_%s, 1);' % m.group(1).upper()),
+           (r'lambda_\(_(start|stop)_probe\{\}\);', lambda m: 'EV_lambda(this, LE_%s, 0);' % m.group(1).upper())]
 ptr_ctx = dict(cls='ptr', members=['ptr_'], post=[(r'\bNULL\b', '0')])
 
 SPEC = dict(
@@ -132,11 +136,9 @@ SPEC = dict(
                                    ctx=dict(cls='raw', pre=[(r'connect_impl_\(self\.fn_, std::forward<Receiver>\(rec\)\)', 'raw_connect_impl(&self->fn_, rec)')])),
         'lop_plain_start': dict(file=L, sig=r'void start\(\) noexcept', within=LOP_PLAIN, ctx=dict(cls='lop', pre=[(r'callable_\(\);', 'EV_lambda(this, LE_CALL, 0);')])),
         'lop_evt_start': dict(file=L, sig=r'void start\(\) noexcept', within=LOP_EVT,
-                              ctx=dict(cls='lop', pre=[(r'std::is_invocable_v<Lambda&, _start_probe, _op\*>', 'VF_CFG_takes_self'),
-                                                       (r'lambda_\(_start_probe\{\}, this\);', 'EV_lambda(this, LE_START, 1);'), (r'lambda_\(_start_probe\{\}\);', 'EV_lambda(this, LE_START, 0);')])),
+                              ctx=dict(cls='lop', pre=LOP_PRE)),
         'lop_evt_stop': dict(file=L, sig=r'void stop\(\) noexcept', within=LOP_EVT,
-                             ctx=dict(cls='lop', pre=[(r'std::is_invocable_v<Lambda&, _stop_probe, _op\*>', 'VF_CFG_takes_self'),
-                                                      (r'lambda_\(_stop_probe\{\}, this\);', 'EV_lambda(this, LE_STOP, 1);'), (r'lambda_\(_stop_probe\{\}\);', 'EV_lambda(this, LE_STOP, 0);')])),
+                             ctx=dict(cls='lop', pre=LOP_PRE)),
     },
     closed_world=[dict(file=B, members=['phase_', 'recursion_', 'safe_cb_holder_'],
                        allow=[r', recursion_\(state\.recursion_\) \{', r'uint16_t& recursion_;', r'uint16_t recursion_\{0\};', r'phase phase_\{starting\};',
